@@ -506,10 +506,10 @@ class Table:
                 return [ i for i,c in enumerate(col,lo) if c == arg ]
             elif isinstance(arg,Number) and isinstance(col[0],str):
                 _re = re.compile(f'(\D|^){arg}(\D|$)')
-                return [ i for i,c in enumerate(col,lo) if c is not None and _re.search(c) ]
+                return [ i for i,c in enumerate(col,lo) if isinstance(c,str) and _re.search(c) ]
             elif isinstance(arg,str) and isinstance(col[0],str):
                 _re = re.compile(arg)
-                return [ i for i,c in enumerate(col,lo) if c is not None and _re.search(c) ]
+                return [ i for i,c in enumerate(col,lo) if isinstance(c,str) and _re.search(c) ]
             else:
                 _re = re.compile(str(arg))
                 return [ i for i,c in enumerate(col,lo) if c is not None and _re.search(str(c)) ]
